@@ -36,6 +36,14 @@ use std::rc::Rc;
 use yash_env::option::{Option as ShellOption, State};
 use yash_env::path::PathBuf;
 use yash_env::semantics::expansion::attr::{AttrChar, AttrField, Origin};
+use yash_env::semantics::expansion::split::{Ifs, split_into};
+use yash_env::source::Location;
+use yash_env::system::resource::{INFINITY, LimitPair, Resource};
+use yash_env::system::Chdir as _;
+use yash_env::system::resource::SetRlimit as _;
+use yash_env::variable::IFS;
+use yash_semantics::expansion::expand_word;
+use yash_semantics::expansion::initial::{Env as InitialEnv, Expand as _};
 use yash_env::str::UnixStr;
 use yash_env::system::r#virtual::{FileBody, Inode, SystemState};
 use yash_env::system::{AT_FDCWD, Dir as _, Fstat as _, Mode, Open as _};
@@ -370,12 +378,55 @@ fn classify(pcs: &[PatternChar]) -> Kind {
 // ------------------------------------------------------------------------------------------
 // one case
 
+/// where the words stand (which part of expansion.rs delivers them to, or keeps them from, `glob`)
+#[derive(Clone, Copy, Debug, PartialEq)]
+enum Ctx {
+    /// `probe w1 w2 …` — command words (`expand_word_with_mode`, Multiple)
+    Cmd,
+    /// `for x in w1 w2 …; do probe "$x"; done` — `expand_words`
+    For,
+    /// `arr=(w1 w2 …); probe "$arr"` — `expand_value`, array
+    Arr,
+    /// `val=w; probe "$val"` — `expand_value`, scalar: no splitting, no globbing
+    Scalar,
+    /// `export val=w; probe "$val"` — `expand_word_with_mode`, Single: no splitting, no globbing
+    Decl,
+    /// no shell: `glob` is called on explicitly given attributed fields
+    Direct,
+}
+
+impl Ctx {
+    fn name(self) -> &'static str {
+        match self {
+            Ctx::Cmd => "cmd",
+            Ctx::For => "for",
+            Ctx::Arr => "arr",
+            Ctx::Scalar => "scalar",
+            Ctx::Decl => "decl",
+            Ctx::Direct => "direct",
+        }
+    }
+    fn parse(s: &str) -> Option<Ctx> {
+        [Ctx::Cmd, Ctx::For, Ctx::Arr, Ctx::Scalar, Ctx::Decl, Ctx::Direct].into_iter().find(|c| c.name() == s)
+    }
+    fn single(self) -> bool {
+        matches!(self, Ctx::Scalar | Ctx::Decl)
+    }
+}
+
 #[derive(Clone, Debug)]
 struct Prim {
     tree: Vec<Entry>,
-    word: String,
+    /// shell words (for `Direct`: unused)
+    words: Vec<String>,
+    /// `Direct`: the fields, in the encoding of the `F` section
+    fields: Option<String>,
     assigns: Vec<(String, String)>,
+    /// `R 1`: the soft limit of open files is set to the lowest unused descriptor, so that every
+    /// `opendir` fails with EMFILE (errors are silently ignored: nothing can be listed)
+    fd_limit: bool,
     glob_on: bool,
+    ctx: Ctx,
 }
 
 fn show_prim(p: &Prim) -> String {
@@ -384,47 +435,165 @@ fn show_prim(p: &Prim) -> String {
     } else {
         p.assigns.iter().map(|(n, v)| format!("{n}={}", enc_str(v))).collect::<Vec<_>>().join(",")
     };
-    format!("T {} W {} A {} G {}", show_tree(&p.tree), enc_str(&p.word), a, p.glob_on as u8)
+    let w = match &p.fields {
+        Some(f) => format!("D {f}"),
+        None => format!("W {}", p.words.iter().map(|w| enc_str(w)).collect::<Vec<_>>().join(",")),
+    };
+    let r = if p.fd_limit { " R 1" } else { "" };
+    format!("T {} {} A {}{} G {} C {}", show_tree(&p.tree), w, a, r, p.glob_on as u8, p.ctx.name())
 }
 
 fn parse_prim(case: &str) -> Option<Prim> {
     let first = case.split('|').next()?;
     let w: Vec<&str> = first.split_whitespace().collect();
-    match w.as_slice() {
-        ["T", t, "W", wd, "A", a, "G", g] => {
-            let assigns = if *a == "-" {
-                vec![]
-            } else {
-                a.split(',')
-                    .map(|x| {
-                        let (n, v) = x.split_once('=')?;
-                        Some((n.to_string(), dec_str(v)?))
-                    })
-                    .collect::<Option<Vec<_>>>()?
-            };
-            Some(Prim { tree: parse_tree(t)?, word: dec_str(wd)?, assigns, glob_on: *g == "1" })
+    let key = |k: &str| w.iter().position(|x| *x == k).and_then(|i| w.get(i + 1)).copied();
+    // the key letters are single upper-case letters, the values never are
+    let a = key("A")?;
+    let assigns = if a == "-" {
+        vec![]
+    } else {
+        a.split(',')
+            .map(|x| {
+                let (n, v) = x.split_once('=')?;
+                Some((n.to_string(), dec_str(v)?))
+            })
+            .collect::<Option<Vec<_>>>()?
+    };
+    let fields = key("D").map(|s| s.to_string());
+    let words = match key("W") {
+        Some(ws) => ws.split(',').map(dec_str).collect::<Option<Vec<_>>>()?,
+        None => vec![],
+    };
+    let ctx = match key("C") {
+        Some(c) => Ctx::parse(c)?,
+        None => {
+            if fields.is_some() { Ctx::Direct } else { Ctx::Cmd }
         }
-        _ => None,
+    };
+    if (ctx == Ctx::Direct) != fields.is_some() || (ctx != Ctx::Direct && words.is_empty()) {
+        return None;
     }
+    if ctx.single() && words.len() != 1 {
+        return None;
+    }
+    Some(Prim { tree: parse_tree(key("T")?)?, words, fields, assigns, fd_limit: key("R") == Some("1"), glob_on: key("G")? == "1", ctx })
+}
+
+fn parse_fields(t: &str) -> Option<Vec<Vec<AttrChar>>> {
+    if t == "/" {
+        return Some(vec![]);
+    }
+    t.split(';')
+        .map(|f| {
+            if f == "-" {
+                return Some(vec![]);
+            }
+            f.split(',')
+                .map(|c| {
+                    let (cp, fl) = c.split_once(':')?;
+                    let fl: Vec<char> = fl.chars().collect();
+                    if fl.len() != 3 {
+                        return None;
+                    }
+                    Some(AttrChar {
+                        value: char::from_u32(u32::from_str_radix(cp, 16).ok()?)?,
+                        origin: match fl[0] {
+                            'L' => Origin::Literal,
+                            'H' => Origin::HardExpansion,
+                            'S' => Origin::SoftExpansion,
+                            _ => return None,
+                        },
+                        is_quoted: fl[1] == '1',
+                        is_quoting: fl[2] == '1',
+                    })
+                })
+                .collect()
+        })
+        .collect()
+}
+
+fn show_fields(fs: &[Vec<AttrChar>]) -> String {
+    if fs.is_empty() {
+        return "/".into();
+    }
+    fs.iter().map(|f| show_field(f)).collect::<Vec<_>>().join(";")
 }
 
 #[derive(Default)]
 struct Direct {
     error: Option<String>,
-    field: Vec<AttrChar>,
+    fields: Vec<Vec<AttrChar>>,
     direct: Vec<String>,
     exist: BTreeSet<String>,
     list: BTreeMap<String, Vec<String>>,
-    table: String,
+    table: BTreeMap<String, String>,
     verdicts: Vec<String>,
 }
 
-fn parse_word(src: &str) -> Result<sx::Word, String> {
-    let cmd: sx::SimpleCommand = format!("probe {src}").parse().map_err(|_| "syntax-error".to_string())?;
-    if cmd.words.len() != 2 || !cmd.assigns.is_empty() || !cmd.redirs.is_empty() {
-        return Err(format!("words={}", cmd.words.len()));
+/// the variable the scalar / declaration contexts assign to
+const VAL: &str = "val";
+
+/// the command that holds the words, as the script has it
+fn command_text(prim: &Prim) -> String {
+    let ws = prim.words.join(" ");
+    match prim.ctx {
+        Ctx::Cmd | Ctx::Direct => format!("probe {ws}"),
+        Ctx::For => format!("for x in {ws}; do probe \"$x\"; done"),
+        Ctx::Arr => format!("arr=({ws}); probe \"$arr\""),
+        Ctx::Scalar => format!("{VAL}={ws}; probe \"${VAL}\""),
+        Ctx::Decl => format!("export {VAL}={ws}; probe \"${VAL}\""),
     }
-    Ok(cmd.words[1].0.clone())
+}
+
+/// The words of the case as the real parser delivers them in that context (so that tilde
+/// recognition, assignment-word parsing and the expansion mode are the parser's, not ours).
+fn parse_words(prim: &Prim) -> Result<Vec<(sx::Word, sx::ExpansionMode)>, String> {
+    let ws = prim.words.join(" ");
+    let n = prim.words.len();
+    let src = match prim.ctx {
+        Ctx::Cmd | Ctx::For | Ctx::Direct => format!("probe {ws}"),
+        Ctx::Arr => format!("arr=({ws})"),
+        Ctx::Scalar => format!("{VAL}={ws}"),
+        Ctx::Decl => format!("export {VAL}={ws}"),
+    };
+    let cmd: sx::SimpleCommand = src.parse().map_err(|_| "syntax-error".to_string())?;
+    if !cmd.redirs.is_empty() {
+        return Err("redirs".into());
+    }
+    match prim.ctx {
+        Ctx::Cmd | Ctx::For | Ctx::Direct => {
+            if cmd.words.len() != n + 1 || !cmd.assigns.is_empty() {
+                return Err(format!("words={}", cmd.words.len()));
+            }
+            if cmd.words.iter().any(|(_, m)| *m != sx::ExpansionMode::Multiple) {
+                return Err("mode".into());
+            }
+            Ok(cmd.words[1..].to_vec())
+        }
+        Ctx::Arr => match cmd.assigns.as_slice() {
+            [a] if cmd.words.is_empty() => match &a.value {
+                sx::Value::Array(ws) if ws.len() == n => Ok(ws.iter().map(|w| (w.clone(), sx::ExpansionMode::Multiple)).collect()),
+                _ => Err("not-an-array".into()),
+            },
+            _ => Err("assigns".into()),
+        },
+        Ctx::Scalar => match cmd.assigns.as_slice() {
+            [a] if cmd.words.is_empty() => match &a.value {
+                sx::Value::Scalar(w) => Ok(vec![(w.clone(), sx::ExpansionMode::Single)]),
+                _ => Err("not-a-scalar".into()),
+            },
+            _ => Err("assigns".into()),
+        },
+        Ctx::Decl => {
+            if cmd.words.len() != 2 || !cmd.assigns.is_empty() {
+                return Err(format!("words={}", cmd.words.len()));
+            }
+            if cmd.words[1].1 != sx::ExpansionMode::Single {
+                return Err("mode-not-single".into());
+            }
+            Ok(vec![cmd.words[1].clone()])
+        }
+    }
 }
 
 fn sq(s: &str) -> String {
@@ -437,39 +606,156 @@ fn prepare(env: &mut VEnv, state: &Rc<RefCell<SystemState>>, prim: &Prim, d: &mu
         d.error = Some(format!("bad-tree:{e}"));
         return;
     }
-    if let Some(p) = state.borrow_mut().processes.get_mut(&env.main_pid) {
-        p.chdir(PathBuf::from("/t"));
+    if env.system.chdir(c"/t").is_err() {
+        d.error = Some("chdir".into());
+        return;
     }
-    let word = match parse_word(&prim.word) {
-        Ok(w) => w,
-        Err(e) => {
-            d.error = Some(format!("bad-word:{e}"));
+    if prim.fd_limit {
+        let lowest = (0..).find(|fd| !fds(env, state).contains(fd)).unwrap();
+        let limits = LimitPair { soft: lowest as _, hard: INFINITY };
+        if env.system.setrlimit(Resource::NOFILE, limits).is_err() {
+            d.error = Some("setrlimit".into());
             return;
         }
-    };
+    }
     // direct expansion and direct glob on a clone of the environment (same virtual system)
     let mut env2 = env.clone();
     for (n, v) in &prim.assigns {
         let _ = env2.variables.get_or_new(n.clone(), Scope::Global).assign(v.clone(), None);
     }
-    let field = match expand_word_attr(&mut env2, &word).now_or_never() {
-        Some(Ok((f, _))) => f,
-        Some(Err(_)) => {
-            d.error = Some("expansion-error".into());
-            return;
-        }
-        None => {
-            d.error = Some("expansion-pending".into());
-            return;
-        }
-    };
-    d.field = field.chars.clone();
     env2.options.set(ShellOption::Glob, if prim.glob_on { State::On } else { State::Off });
-    let af = AttrField { chars: field.chars.clone(), origin: field.origin.clone() };
-    d.direct = glob(&mut env2, af).map(|r| r.map(|f| f.value).unwrap_or_else(|_| "INTERRUPTED".into())).collect();
+    let mut per_field: Vec<Vec<String>> = vec![];
+    if let Some(f) = &prim.fields {
+        match parse_fields(f) {
+            Some(fs) => d.fields = fs,
+            None => {
+                d.error = Some("bad-fields".into());
+                return;
+            }
+        }
+    } else {
+        let words = match parse_words(prim) {
+            Ok(w) => w,
+            Err(e) => {
+                d.error = Some(format!("bad-word:{e}"));
+                return;
+            }
+        };
+        for (word, mode) in &words {
+            match mode {
+                sx::ExpansionMode::Single => {
+                    // the joined field that `expand_word` removes the quotes from
+                    match expand_word_attr(&mut env2, word).now_or_never() {
+                        Some(Ok((f, _))) => d.fields.push(f.chars),
+                        _ => {
+                            d.error = Some("expansion-error".into());
+                            return;
+                        }
+                    }
+                    match expand_word(&mut env2, word).now_or_never() {
+                        Some(Ok((f, _))) => per_field.push(vec![f.value]),
+                        _ => {
+                            d.error = Some("expansion-error".into());
+                            return;
+                        }
+                    }
+                }
+                sx::ExpansionMode::Multiple => {
+                    // `expand_word_multiple` up to the pathname expansion step
+                    let phrase = {
+                        let mut ienv = InitialEnv::new(&mut env2);
+                        match word.expand(&mut ienv).now_or_never() {
+                            Some(Ok(p)) => p,
+                            _ => {
+                                d.error = Some("expansion-error".into());
+                                return;
+                            }
+                        }
+                    };
+                    let ifs_text = env2.variables.get_scalar(IFS).map(|s| s.to_string());
+                    let ifs = ifs_text.as_deref().map(Ifs::new).unwrap_or_default();
+                    for chars in phrase {
+                        let mut out = vec![];
+                        split_into(AttrField { chars, origin: word.location.clone() }, &ifs, &mut out);
+                        d.fields.extend(out.into_iter().map(|f| f.chars));
+                    }
+                }
+            }
+        }
+    }
+    let single = prim.ctx.single();
+    if !single {
+        for f in &d.fields {
+            let af = AttrField { chars: f.clone(), origin: Location::dummy("c05") };
+            per_field.push(glob(&mut env2, af).map(|r| r.map(|f| f.value).unwrap_or_else(|_| "INTERRUPTED".into())).collect());
+        }
+    }
+    d.direct = per_field.iter().flatten().cloned().collect();
 
+    let mut names_all: BTreeSet<String> = BTreeSet::new();
+    names_all.insert(".".into());
+    names_all.insert("..".into());
+    for e in &prim.tree {
+        let p = match e {
+            Entry::File(p) | Entry::Dir(p, _) | Entry::Link(p, _) => p,
+        };
+        if let Some(n) = p.rsplit('/').next() {
+            names_all.insert(n.to_string());
+        }
+    }
+    let mut listing_cache: BTreeMap<String, Option<Vec<String>>> = BTreeMap::new();
+    let fields = d.fields.clone();
+    if single {
+        // Single mode: the property says the field is not globbed at all
+        for (f, res) in fields.iter().zip(&per_field) {
+            if *res != vec![quote_removed(f)] {
+                d.verdicts.push("single-mode-not-verbatim".into());
+            }
+        }
+        return;
+    }
+    let mut pending = vec![];
+    for (f, res) in fields.iter().zip(&per_field) {
+        match field_work(env, state, prim, d, f, res, &names_all, &mut listing_cache) {
+            Some(p) => pending.push(p),
+            None => return,
+        }
+    }
+    // match table: candidates are all names of all dumped listings
+    let mut names = names_all.clone();
+    for ns in d.list.values() {
+        names.extend(ns.iter().cloned());
+    }
+    for (pcs, kinds) in &pending {
+        for (p, kd) in pcs.iter().zip(kinds) {
+            let key = show_pcs(p);
+            let val = match kd {
+                Kind::Invalid => "N".to_string(),
+                Kind::Literal(s) => format!("L{}", enc_str(s)),
+                Kind::Pattern(pat) => {
+                    let ms: Vec<String> = names.iter().filter(|n| pat.is_match(n)).map(|n| enc_str(n)).collect();
+                    if ms.is_empty() { "P".to_string() } else { format!("P={}", ms.join(".")) }
+                }
+            };
+            d.table.insert(key, val);
+        }
+    }
+}
+
+/// Dump, and the property's statement, for one field and the result `res` of `glob` on it.
+#[allow(clippy::too_many_arguments)]
+fn field_work(
+    env: &mut VEnv,
+    state: &Rc<RefCell<SystemState>>,
+    prim: &Prim,
+    d: &mut Direct,
+    field: &[AttrChar],
+    res: &[String],
+    names_all: &BTreeSet<String>,
+    listing_cache: &mut BTreeMap<String, Option<Vec<String>>>,
+) -> Option<(Vec<Vec<PatternChar>>, Vec<Kind>)> {
     // components and what yash_fnmatch says about them
-    let comps = split_components(&d.field);
+    let comps = split_components(field);
     let pcs: Vec<Vec<PatternChar>> = comps.iter().map(|c| to_pattern_chars(c)).collect();
     let kinds: Vec<Kind> = pcs.iter().map(|p| classify(p)).collect();
     let texts: Vec<Vec<String>> = comps
@@ -487,18 +773,6 @@ fn prepare(env: &mut VEnv, state: &Rc<RefCell<SystemState>>, prim: &Prim, d: &mu
         .collect();
 
     // dump of the two oracles: breadth-first over every prefix the expansion could build
-    let mut names_all: BTreeSet<String> = BTreeSet::new();
-    names_all.insert(".".into());
-    names_all.insert("..".into());
-    for e in &prim.tree {
-        let p = match e {
-            Entry::File(p) | Entry::Dir(p, _) | Entry::Link(p, _) => p,
-        };
-        if let Some(n) = p.rsplit('/').next() {
-            names_all.insert(n.to_string());
-        }
-    }
-    let mut listing_cache: BTreeMap<String, Option<Vec<String>>> = BTreeMap::new();
     let mut prefixes: BTreeSet<String> = BTreeSet::new();
     prefixes.insert(String::new());
     let k = comps.len();
@@ -512,7 +786,7 @@ fn prepare(env: &mut VEnv, state: &Rc<RefCell<SystemState>>, prim: &Prim, d: &mu
                 d.list.insert(dir.clone(), ns.clone());
                 // the code skips `.` and `..` of a listing before anything else: no descent through them
                 cands.extend(ns.iter().filter(|n| *n != "." && *n != "..").cloned());
-                for u in &names_all {
+                for u in names_all {
                     let path = format!("{p}{u}");
                     if sys_exists(env, &path) {
                         d.exist.insert(path);
@@ -532,32 +806,12 @@ fn prepare(env: &mut VEnv, state: &Rc<RefCell<SystemState>>, prim: &Prim, d: &mu
         prefixes = next;
         if prefixes.len() > 20_000 {
             d.error = Some("too-many-prefixes".into());
-            return;
+            return None;
         }
     }
-    for ns in d.list.values() {
-        names_all.extend(ns.iter().cloned());
-    }
-
-    // match table
-    let mut table: BTreeMap<String, String> = BTreeMap::new();
-    for (p, kd) in pcs.iter().zip(&kinds) {
-        let key = show_pcs(p);
-        let val = match kd {
-            Kind::Invalid => "N".to_string(),
-            Kind::Literal(s) => format!("L{}", enc_str(s)),
-            Kind::Pattern(pat) => {
-                let ms: Vec<String> = names_all.iter().filter(|n| pat.is_match(n)).map(|n| enc_str(n)).collect();
-                if ms.is_empty() { "P".to_string() } else { format!("P={}", ms.join(".")) }
-            }
-        };
-        table.insert(key, val);
-    }
-    d.table = table.iter().map(|(k, v)| format!("{k}={v}")).collect::<Vec<_>>().join(",");
 
     // ---- the property's statement, evaluated directly
-    let qr = quote_removed(&d.field);
-    let res = &d.direct;
+    let qr = quote_removed(field);
     let mut v = vec![];
     for (p, kd) in pcs.iter().zip(&kinds) {
         if p.iter().all(|c| matches!(c, PatternChar::Literal(_))) {
@@ -568,7 +822,7 @@ fn prepare(env: &mut VEnv, state: &Rc<RefCell<SystemState>>, prim: &Prim, d: &mu
         }
     }
     if !prim.glob_on {
-        if *res != vec![qr.clone()] {
+        if *res != [qr.clone()] {
             v.push("noglob-not-verbatim".into());
         }
     } else {
@@ -602,7 +856,7 @@ fn prepare(env: &mut VEnv, state: &Rc<RefCell<SystemState>>, prim: &Prim, d: &mu
             }
             frontier = nf;
         }
-        let fallback = *res == vec![qr.clone()];
+        let fallback = *res == [qr.clone()];
         let mut sound = true;
         for r in res {
             let names: Vec<&str> = r.split('/').collect();
@@ -662,7 +916,12 @@ fn prepare(env: &mut VEnv, state: &Rc<RefCell<SystemState>>, prim: &Prim, d: &mu
             }
         }
     }
-    d.verdicts = v;
+    d.verdicts.extend(v);
+    Some((pcs, kinds))
+}
+
+fn show_obs(fields: &[String]) -> String {
+    if fields.is_empty() { "none".to_string() } else { fields.iter().map(|s| enc_str(s)).collect::<Vec<_>>().join(",") }
 }
 
 fn run_prim(prim: &Prim) -> (String, String, String) {
@@ -676,7 +935,11 @@ fn run_prim(prim: &Prim) -> (String, String, String) {
     if !prim.glob_on {
         script.push_str("set -f\n");
     }
-    script.push_str(&format!("probe {}\n", prim.word));
+    if prim.ctx == Ctx::Direct {
+        script.push_str(":\n");
+    } else {
+        script.push_str(&format!("{}\n", command_text(prim)));
+    }
     let mut config = Config::new(&script);
     config.max_rounds = 10_000;
     let (outcome, _) = run_with(
@@ -691,7 +954,7 @@ fn run_prim(prim: &Prim) -> (String, String, String) {
     let case = format!(
         "{} | F {} | E {} | L {} | M {}",
         show_prim(prim),
-        show_field(&d.field),
+        show_fields(&d.fields),
         if d.exist.is_empty() { "-".to_string() } else { d.exist.iter().map(|p| enc_str(p)).collect::<Vec<_>>().join(",") },
         if d.list.is_empty() {
             "-".to_string()
@@ -702,7 +965,7 @@ fn run_prim(prim: &Prim) -> (String, String, String) {
                 .collect::<Vec<_>>()
                 .join(",")
         },
-        if d.table.is_empty() { "-".to_string() } else { d.table.clone() },
+        if d.table.is_empty() { "-".to_string() } else { d.table.iter().map(|(k, v)| format!("{k}={v}")).collect::<Vec<_>>().join(",") },
     );
     if let Some(e) = &d.error {
         return (case, e.clone(), "-".into());
@@ -710,23 +973,42 @@ fn run_prim(prim: &Prim) -> (String, String, String) {
     if outcome.stuck {
         return (case, "TIMEOUT".into(), "FAIL:stuck".into());
     }
+    let mut verdicts = d.verdicts.clone();
+    if prim.ctx == Ctx::Direct {
+        let oracle = if verdicts.is_empty() { "ok".to_string() } else { format!("FAIL:{}", verdicts.join(";")) };
+        return (case, show_obs(&d.direct), oracle);
+    }
     let out = outcome.stdout_str();
     let lines: Vec<&str> = out.lines().collect();
-    let mut verdicts = d.verdicts.clone();
-    let obs = if lines.len() == 1 && lines[0].starts_with("0:") && outcome.exit_status == 0 {
-        let body = &lines[0][2..];
-        let fields: Option<Vec<String>> = if body.is_empty() { Some(vec![]) } else { body.split(',').map(dec_str).collect() };
-        match fields {
-            Some(fs) => {
-                if fs != d.direct {
-                    verdicts.push(format!(
-                        "shell-differs-from-direct:{}",
-                        d.direct.iter().map(|s| enc_str(s)).collect::<Vec<_>>().join(",")
-                    ));
-                }
-                body.to_string()
+    let well_formed = outcome.exit_status == 0
+        && lines.iter().all(|l| l.starts_with("0:"))
+        && (prim.ctx == Ctx::For || lines.len() == 1);
+    let obs = if well_formed {
+        let mut fields: Vec<String> = vec![];
+        let mut ok = true;
+        for l in &lines {
+            let body = &l[2..];
+            if body.is_empty() {
+                continue;
             }
-            None => format!("ERR(undecodable:{})", enc_str(&out)),
+            for h in body.split(',') {
+                match dec_str(h) {
+                    Some(s) => fields.push(s),
+                    None => ok = false,
+                }
+            }
+        }
+        if prim.ctx == Ctx::Decl {
+            // the operand was `val=<value>`; the shell shows the value
+            fields = fields.into_iter().map(|f| format!("{VAL}={f}")).collect();
+        }
+        if !ok {
+            format!("ERR(undecodable:{})", enc_str(&out))
+        } else {
+            if fields != d.direct {
+                verdicts.push(format!("shell-differs-from-direct:{}", show_obs(&d.direct)));
+            }
+            show_obs(&fields)
         }
     } else {
         verdicts.push("shell-failed".into());
@@ -743,7 +1025,7 @@ fn run_guarded(prim: &Prim) -> (String, String, String) {
         out.1.clone()
     });
     if o.starts_with("PANIC") {
-        (format!("{} | F - | E - | L - | M -", show_prim(prim)), o.clone(), format!("FAIL:{o}"))
+        (format!("{} | F / | E - | L - | M -", show_prim(prim)), o.clone(), format!("FAIL:{o}"))
     } else {
         out
     }
@@ -919,6 +1201,8 @@ struct WordGen {
     text: String,
     assigns: Vec<(String, String)>,
     nvars: usize,
+    /// variables of this word are v<base+1>, v<base+2>
+    base: usize,
 }
 
 impl WordGen {
@@ -960,7 +1244,7 @@ impl WordGen {
             }
             Style::Var | Style::QuotedVar => {
                 self.nvars += 1;
-                let name = format!("v{}", self.nvars);
+                let name = format!("v{}", self.base + self.nvars);
                 self.assigns.push((name.clone(), text.to_string()));
                 if style == Style::Var {
                     // braces: the next piece may start with a name character
@@ -977,14 +1261,14 @@ impl WordGen {
 
 /// A word that follows a real path of the tree: each name is kept (in some quoting style) or replaced
 /// by a pattern derived from it, so that most of these words match something.
-fn gen_guided(r: &mut Rng, tree: &[Entry]) -> Option<(String, Vec<(String, String)>)> {
+fn gen_guided(r: &mut Rng, tree: &[Entry], base: usize) -> Option<(String, Vec<(String, String)>)> {
     if tree.is_empty() {
         return None;
     }
     let path = match r.pick(tree) {
         Entry::File(p) | Entry::Dir(p, _) | Entry::Link(p, _) => p.clone(),
     };
-    let mut g = WordGen { text: String::new(), assigns: vec![], nvars: 0 };
+    let mut g = WordGen { text: String::new(), assigns: vec![], nvars: 0, base };
     match r.below(16) {
         0 => g.text.push_str("/t/"),
         1 => g.text.push_str("./"),
@@ -1059,20 +1343,39 @@ fn gen_guided(r: &mut Rng, tree: &[Entry]) -> Option<(String, Vec<(String, Strin
     Some((g.text, g.assigns))
 }
 
-fn gen_word(r: &mut Rng, tree: &[Entry]) -> (String, Vec<(String, String)>) {
+/// A word whose unquoted expansion is split into several fields, each globbed on its own.
+fn gen_split(r: &mut Rng, base: usize) -> (String, Vec<(String, String)>) {
+    let n = 2 + r.below(2);
+    let parts: Vec<&str> = (0..n).map(|_| if r.chance(1, 2) { *r.pick(&PRODUCTIVE) } else { *r.pick(&ATOMS) }).collect();
+    let sep = *r.pick(&[" ", "  ", "\t", " \n"]);
+    let value = parts.join(sep);
+    let name = format!("v{}", base + 1);
+    let text = match r.below(4) {
+        0 => format!("a${{{name}}}"),
+        1 => format!("${{{name}}}/*"),
+        2 => format!("sub/${{{name}}}"),
+        _ => format!("${{{name}}}"),
+    };
+    (text, vec![(name, value)])
+}
+
+fn gen_word(r: &mut Rng, tree: &[Entry], base: usize, first_word: bool) -> (String, Vec<(String, String)>) {
+    if r.chance(1, 12) {
+        return gen_split(r, base);
+    }
     if r.chance(1, 2) {
-        if let Some(w) = gen_guided(r, tree) {
+        if let Some(w) = gen_guided(r, tree, base) {
             return w;
         }
     }
-    let mut g = WordGen { text: String::new(), assigns: vec![], nvars: 0 };
+    let mut g = WordGen { text: String::new(), assigns: vec![], nvars: 0, base };
     let ncomp = match r.below(20) {
         0..=8 => 1,
         9..=15 => 2,
         _ => 3,
     };
     let mut first = 0;
-    match r.below(14) {
+    match if first_word { r.below(14) } else { 2 + r.below(12) } {
         0 => g.text.push_str("/t/"),
         1 => {
             // tilde expansion: the value of HOME arrives as hard-expansion characters
@@ -1128,7 +1431,105 @@ fn gen_word(r: &mut Rng, tree: &[Entry]) -> (String, Vec<(String, String)>) {
 
 fn word_ok(w: &str, assigns: &[(String, String)]) -> bool {
     let slashes = w.matches('/').count() + assigns.iter().map(|(_, v)| v.matches('/').count()).sum::<usize>();
-    !w.is_empty() && slashes <= 4 && parse_word(w).is_ok()
+    !w.is_empty() && slashes <= 4
+}
+
+/// Attributed fields made by hand (not obtainable, or not easily, through a shell word): arbitrary
+/// mixtures of origins and quoting flags, quoting characters anywhere, NUL characters, several fields.
+fn gen_direct_fields(r: &mut Rng, tree: &[Entry]) -> String {
+    let nfields = match r.below(8) {
+        0 => 0,
+        1 | 2 => 2,
+        _ => 1,
+    };
+    let mut fields = vec![];
+    for _ in 0..nfields {
+        let ncomp = 1 + r.below(3);
+        let mut text = String::new();
+        if r.chance(1, 10) {
+            text.push_str("/t/");
+        }
+        for i in 0..ncomp {
+            if i > 0 {
+                text.push('/');
+            }
+            match r.below(4) {
+                0 => text.push_str(*r.pick(&PRODUCTIVE)),
+                1 => text.push_str(*r.pick(&ATOMS)),
+                2 => text.push_str(*r.pick(&VAR_ATOMS)),
+                _ => {
+                    if let Some(e) = (!tree.is_empty()).then(|| r.pick(tree)) {
+                        let p = match e {
+                            Entry::File(p) | Entry::Dir(p, _) | Entry::Link(p, _) => p,
+                        };
+                        text.push_str(p.rsplit('/').next().unwrap());
+                    }
+                }
+            }
+        }
+        let mut cs: Vec<AttrChar> = vec![];
+        let nul_at = if r.chance(1, 12) { Some(r.below(text.chars().count() + 1)) } else { None };
+        for (i, c) in text.chars().enumerate() {
+            if nul_at == Some(i) {
+                cs.push(AttrChar { value: '\0', origin: Origin::Literal, is_quoted: false, is_quoting: false });
+            }
+            if r.chance(1, 12) {
+                let q = *r.pick(&['\\', '\'', '"', '/']);
+                cs.push(AttrChar { value: q, origin: Origin::Literal, is_quoted: r.chance(1, 3), is_quoting: true });
+            }
+            let origin = match r.below(10) {
+                0 => Origin::HardExpansion,
+                1..=3 => Origin::SoftExpansion,
+                _ => Origin::Literal,
+            };
+            cs.push(AttrChar { value: c, origin, is_quoted: r.chance(1, 8), is_quoting: false });
+        }
+        if nul_at == Some(text.chars().count()) {
+            cs.push(AttrChar { value: '\0', origin: Origin::SoftExpansion, is_quoted: false, is_quoting: false });
+        }
+        fields.push(cs);
+    }
+    show_fields(&fields)
+}
+
+fn gen_prim(rw: &mut Rng, tree: &[Entry]) -> Prim {
+    let glob_on = !rw.chance(1, 8);
+    let fd_limit = rw.chance(1, 25);
+    let ctx = match rw.below(20) {
+        0..=10 => Ctx::Cmd,
+        11 | 12 => Ctx::For,
+        13 | 14 => Ctx::Arr,
+        15 => Ctx::Scalar,
+        16 => Ctx::Decl,
+        _ => Ctx::Direct,
+    };
+    if ctx == Ctx::Direct {
+        loop {
+            let f = gen_direct_fields(rw, tree);
+            if f.matches("2f:").count() <= 5 {
+                return Prim { tree: tree.to_vec(), words: vec![], fields: Some(f), assigns: vec![], fd_limit, glob_on, ctx };
+            }
+        }
+    }
+    loop {
+        let nwords = if ctx.single() || rw.chance(2, 3) { 1 } else { 2 + rw.below(2) };
+        let mut words = vec![];
+        let mut assigns: Vec<(String, String)> = vec![];
+        for k in 0..nwords {
+            let (w, a) = loop {
+                let (w, a) = gen_word(rw, tree, 2 * k, k == 0 && !ctx.single());
+                if word_ok(&w, &a) {
+                    break (w, a);
+                }
+            };
+            words.push(w);
+            assigns.extend(a);
+        }
+        let prim = Prim { tree: tree.to_vec(), words, fields: None, assigns, fd_limit, glob_on, ctx };
+        if parse_words(&prim).is_ok() {
+            return prim;
+        }
+    }
 }
 
 fn main() {
@@ -1159,14 +1560,7 @@ fn main() {
             if index % o.shard.1 != o.shard.0 {
                 continue;
             }
-            let (word, assigns) = loop {
-                let (w, a) = gen_word(&mut rw, &tree);
-                if word_ok(&w, &a) {
-                    break (w, a);
-                }
-            };
-            let glob_on = !rw.chance(1, 8);
-            let prim = Prim { tree: tree.clone(), word, assigns, glob_on };
+            let prim = gen_prim(&mut rw, &tree);
             let (case, obs, oracle) = run_guarded(&prim);
             if obs == "too-many-prefixes" {
                 continue; // the oracle dump would be too large for one line; not a statement about the code
